@@ -58,6 +58,9 @@ func (p *Program) prelude(vc *VC, pkgs map[string]bool) {
 		if a.Lemma && vc.name == "lemma:"+a.Pkg+"."+a.Name {
 			continue
 		}
+		if (a.Scope == "int" && vc.mode != ModeInt) || (a.Scope == "bv" && vc.mode != ModeBV) || (a.Scope == "explicit" && !vc.with[a.Name]) {
+			continue
+		}
 		env := &Env{vc: vc, st: NewState(), vars: map[string]Val{}, pkg: p.typesPkgByName(a.Pkg), pkgName: a.Pkg}
 		t, err := env.EvalBool(a.E)
 		if err != nil {
@@ -169,6 +172,13 @@ func (p *Program) genOnce(fn *ssa.Function, key string, opts GenOpts, pre map[st
 	if fc != nil {
 		for _, u := range strings.Fields(fc.Opts["uses"]) {
 			pkgs[u] = true
+		}
+		vc.sliceUF = strings.TrimSpace(fc.Opts["sliceidx"]) == "uf"
+		if w := strings.Fields(strings.ReplaceAll(fc.Opts["with"], ",", " ")); len(w) > 0 {
+			vc.with = map[string]bool{}
+			for _, n := range w {
+				vc.with[n] = true
+			}
 		}
 	}
 	if fc != nil {
